@@ -556,12 +556,11 @@ class C16(core.Property):
     hypotheses = [
         "policy theorems: well-formed histories (on_insert only for a key that is not tracked — the protocol CachedStore._cache_put follows; proved at the store level)",
         "store theorems: capacity ≥ 1 (the constructor rejects less), policy made by Pol.ofName",
-        "writeback_reaches_store, read_after_write_sequential, soft_ttl_age_le_hard: repaired variant (fixes/C16-*.diff); soft_ttl ≤ hard_ttl (constructor)",
+        "writeback_reaches_store, read_after_write_all_interleavings, read_after_write_sequential, soft_ttl_age_le_hard: repaired variant (fixes/C16-*.diff); soft_ttl ≤ hard_ttl (constructor)",
+        "read_after_write_all_interleavings: Schedule ops as — operation ids unique, every first segment in the schedule is that of its table entry (a flush with any iteration order of the dirty set), no id started twice, put values pairwise distinct; resumes of ids with nothing pending are allowed anywhere (they are no-ops)",
     ]
     partial_theorems = {
-        "HappyModel.C16.read_after_write_sequential": "full statement read_after_write_full (Props.lean, a def … : Prop) quantifies over every interleaving of operation segments; proved only for schedules in which operations do not overlap. Overlapping schedules are covered by the Spec judge on implementation transcripts (correspondence) and by the decided witness read_after_write_refill_witness.",
         "HappyModel.C16.soft_ttl_age_le_hard": "age is measured when the serve decision is taken (issue time of a hit, end of the wait of a coalesced request), not when the generator returns cache_read_latency later",
-        "order laws": "proved for LRU, LFU, FIFO, TTL (OrderLaws.lean); SLRU and sampled-LRU order clauses are judged on transcripts only; Clock, 2Q and Random have no order clause beyond the key-set law",
     }
 
     # ------------------------------------------------------------------ generation
@@ -1079,6 +1078,10 @@ THEOREMS = [
     "HappyModel.C16.lfu_evicts_least_frequent",
     "HappyModel.C16.fifo_evicts_oldest",
     "HappyModel.C16.ttl_evicts_expired_or_oldest",
+    "HappyModel.C16.slru_evicts_probation_first",
+    "HappyModel.C16.sampled_evicts_lru_of_sample",
+    "HappyModel.C16.read_after_write_all_interleavings",
+    "HappyModel.C16.read_after_write_overlap_witness",
     "HappyModel.C16.read_after_write_sequential",
     "HappyModel.C16.read_after_write_refill_witness",
     "HappyModel.C16.writeback_reaches_store",
